@@ -36,10 +36,16 @@ ProtectedUntouched == (l > 1 /\ P.k \in {"call", "notify", "batch"}) =>
                          /\ Carried("content-type") /\ SentSet("content-type") = {P.ctype}
 UserAgentDefault == (l > 1 /\ P.k \in {"call", "notify", "batch"} /\ "user-agent" \notin Pushed(stack)) =>
                          (Carried("user-agent") /\ SentSet("user-agent") = {P.ua})
+\* C18, "restored after a block" as the peer sees it: a name that only dictionaries no longer in force defined is not sent
+\* any more (the fields every request has of its own - Host, User-Agent and the protected two - are judged above)
+OwnFields == {"host", "user-agent", "content-length", "content-type"}
+NothingLeftOver == (l > 1 /\ P.k \in {"call", "notify", "batch"}) =>
+                      \A ln \in LowNames \ (OwnFields \cup Pushed(stack)) : ~Carried(ln)
 NoFailure == l = 1 \/ P.err = ""
 Flag(name) == PrintT(<<"PROPFAIL", tid, name, l - 1>>)
 Monitor == /\ StackAsSpecified \/ Flag("RestoredAfterBlock")
            /\ MostRecentWins \/ Flag("MostRecentWins")
+           /\ NothingLeftOver \/ Flag("NothingLeftOver")
            /\ ProtectedUntouched \/ Flag("ProtectedUntouched")
            /\ UserAgentDefault \/ Flag("UserAgentDefault")
            /\ NoFailure \/ Flag("NoFailure")
